@@ -113,6 +113,13 @@ def parseConfigOp (c : Cfg) (ws : List String) : Option Op :=
     let i ← (← s "i").toNat?
     let fees ← (← s "fees") |> parseOpt parseTriple
     if i < c.vaults.length then pure (.vaultUpd via i fees) else none
+  | ["vault_upd", _, _, _, _] => do
+    -- `tog=…`: switches written by the same message; no configuration bound depends on them (model: ignored)
+    let via ← (← s "via") |> parseVia
+    let i ← (← s "i").toNat?
+    let fees ← (← s "fees") |> parseOpt parseTriple
+    let _ ← s "tog"
+    if i < c.vaults.length then pure (.vaultUpd via i fees) else none
   | ["dist_inst", _, _] => do
     let g ← (← s "grace").toNat?
     let d ← (← s "dur").toNat?
